@@ -128,5 +128,11 @@ ChunkLazy == kind = "chunk" => /\ Len(buf) <= p1
 CountDefaults == (kind = "count" /\ Done /\ N > 0) =>
                     /\ (opt \in {"kwstep", "none"} => out[1] = 0)
                     /\ (opt \in {"start", "none"} /\ N > 1 => out[2] = out[1] + 1)
+\* CountFrom has no upper bound of its own: after k steps the value is start + k*step for ALL k (TLC integers
+\* are bounded, so the machine is followed symbolically: CountStep has no guard on the value; the replay
+\* shifts every scenario by offsets up to and beyond the machine word) and the run ends only because the
+\* consumer stops taking values
+CountLinear == kind = "count" => \A j \in 1..Len(out) : out[j] = p1 + (j - 1) * p2
+CountNeverEndsByItself == (kind = "count" /\ ph = "done") => Len(out) = N
 Emitted == Done => PrintT(ToJson([kind |-> kind, p1 |-> p1, p2 |-> p2, n |-> N, opt |-> opt, out |-> out, pulls |-> pulls]))
 =============================================================================
